@@ -312,10 +312,20 @@ func C04(ctx *Ctx) {
 			if s.Kind != SumAffine {
 				continue
 			}
+			if s.Base>>pageBits >= nPages {
+				bad = append(bad, B)
+				detail[B] = fmt.Sprintf("bus %s -> pak $%X, which lies outside the 24-bit FX Pak Pro space", pageRange(B), s.Base)
+				continue
+			}
 			back := ms.P2B[s.Base>>pageBits]
 			if back.Kind != SumAffine {
 				bad = append(bad, B)
 				detail[B] = fmt.Sprintf("bus %s -> pak $%06X, but PakAddressToBus(pak page) is %s", pageRange(B), s.Base, back)
+				continue
+			}
+			if back.Base>>pageBits >= nPages {
+				bad = append(bad, B)
+				detail[B] = fmt.Sprintf("bus %s -> pak $%06X -> bus $%X, which lies outside the 24-bit bus", pageRange(B), s.Base, back.Base)
 				continue
 			}
 			again := ms.B2P[back.Base>>pageBits]
@@ -338,8 +348,13 @@ func C04(ctx *Ctx) {
 			if s.Kind != SumAffine {
 				continue
 			}
-			fwd := ms.B2P[s.Base>>pageBits]
 			pc := pakInputClass(uint32(P) << pageBits)
+			if s.Base>>pageBits >= nPages {
+				bad = append(bad, P)
+				detail[P] = fmt.Sprintf("pak %s (%s) -> bus $%X, which lies outside the 24-bit bus (BusAddressToPak cannot map it)", pageRange(P), pc, s.Base)
+				continue
+			}
+			fwd := ms.B2P[s.Base>>pageBits]
 			if fwd.Kind != SumAffine {
 				bad = append(bad, P)
 				detail[P] = fmt.Sprintf("pak %s (%s) -> bus $%06X which BusAddressToPak does not map (%s)", pageRange(P), pc, s.Base, fwd)
